@@ -1,4 +1,6 @@
 import MoneroModel.Proofs.VarIntImp
+import MoneroModel.Proofs.VarIntSpec
+import MoneroModel.Proofs.VarIntErr
 open Monero
 /-! # C14 — VarInt is a bijection between u64 and minimal little-endian base-128 strings
 
@@ -140,10 +142,266 @@ theorem C14_spec_accept_sound (b : Bytes) (n k : Nat) (h : Spec.leb128Accept b =
       rw [hc.2]; simp
     · simp at h
 
+/-! ## Audit round: the spec tied to an independent valuation, the oracle verified in both directions, direct rejection
+theorems. (`C14_rejects_nonminimal` above keeps its historical name; what it states is "the consumed prefix is
+canonical" — see `C14_consumed_is_canonical`; the direct rejection of a superfluous zero group is
+`C14_rejects_zero_group`.) -/
+
+/-- clause (a/b), value: `leb128 n` read as base-128 groups (low 7 bits of each byte, least significant first, up to
+the first byte without continuation bit — `Spec.readGroups`, which never looks at `leb128`) has value `n`
+(`Spec.valOf = Σ gᵢ·128ⁱ`), and the reading ends exactly at its last byte, whatever follows -/
+theorem C14_leb128_value (n : Nat) (r : List UInt8) : ∃ gs,
+    Spec.readGroups (Spec.leb128 n ++ r) = some (gs, (Spec.leb128 n).length) ∧ Spec.valOf gs = n :=
+  VarIntSpec.readGroups_leb128 r n
+
+/-- clause (b), unique shortest: ANY terminated base-128 string with continuation bits whose groups have value `n`
+uses at least as many bytes as `leb128 n`, and one that uses exactly as many IS `leb128 n` -/
+theorem C14_shortest (b : List UInt8) (gs : List Nat) (k n : Nat)
+    (h : Spec.readGroups b = some (gs, k)) (hv : Spec.valOf gs = n) :
+    (Spec.leb128 n).length ≤ k ∧ ((Spec.leb128 n).length = k → b.take k = Spec.leb128 n) :=
+  VarIntSpec.shortest b gs k n h hv
+
+/-- so the encoder as written emits the unique shortest base-128 spelling of `n` -/
+theorem C14_enc_shortest (n : Nat) (b : List UInt8) (gs : List Nat) (k : Nat)
+    (h : Spec.readGroups b = some (gs, k)) (hv : Spec.valOf gs = n) :
+    (encVarintImp n).2 ≤ k ∧ ((encVarintImp n).2 = k → b.take k = (encVarintImp n).1) := by
+  rw [(C14_enc_eq_leb128 n).1, (C14_enc_eq_leb128 n).2]; exact C14_shortest b gs k n h hv
+
+/-- `leb128` is injective, indeed a prefix code, on all naturals -/
+theorem C14_leb128_injective (n m : Nat) (r r' : List UInt8) (h : Spec.leb128 n ++ r = Spec.leb128 m ++ r') :
+    n = m ∧ r = r' := by
+  have e := VarIntSpec.leb128_prefix_free n m r r' h
+  subst e; exact ⟨rfl, List.append_cancel_left h⟩
+
+/-- clause (c), closed form: the length oracle `Spec.leb128Len n = ⌊log2 n / 7⌋ + 1` (1 for 0) printed by the driver
+is the length of `leb128 n`, hence the length the encoder reports -/
+theorem C14_leb128Len (n : Nat) :
+    (Spec.leb128 n).length = Spec.leb128Len n ∧ (encVarintImp n).2 = Spec.leb128Len n := by
+  have h := VarIntSpec.leb128_length n (leb128_bounds n)
+  exact ⟨h, by rw [(C14_enc_eq_leb128 n).2, h]⟩
+
+/-- the oracle is exact in both directions: the executable reference acceptance test returns `(n, k)` iff the decoder
+model accepts with value `n` having consumed `k` bytes -/
+theorem C14_spec_accept_iff (b : Bytes) (n k : Nat) :
+    Spec.leb128Accept b = some (n, k) ↔ ∃ r, varint b = some (n, r) ∧ k = b.length - r.length := by
+  constructor
+  · intro h
+    refine ⟨b.drop k, C14_spec_accept_sound b n k h, ?_⟩
+    have hk : k ≤ b.length := by
+      unfold Spec.leb128Accept at h
+      cases hr : Spec.readGroups b with
+      | none => simp [hr] at h
+      | some p =>
+        obtain ⟨gs, k'⟩ := p
+        simp only [hr] at h
+        split at h
+        · simp at h; obtain ⟨_, rfl⟩ := h
+          exact (VarIntSpec.readGroups_pos b gs k' hr).2
+        · simp at h
+    simp; omega
+  · rintro ⟨r, h, rfl⟩
+    obtain ⟨hn, rfl⟩ := (C14_dec_iff b n r).1 h
+    obtain ⟨gs, h1, h2⟩ := C14_leb128_value n r
+    unfold Spec.leb128Accept
+    simp [h1, h2, hn]
+
+/-- in particular the oracle rejects exactly what the model rejects -/
+theorem C14_spec_accept_none (b : Bytes) : Spec.leb128Accept b = none ↔ varint b = none := by
+  constructor
+  · intro h
+    cases hv : varint b with
+    | none => rfl
+    | some p =>
+      obtain ⟨n, r⟩ := p
+      have := (C14_spec_accept_iff b n (b.length - r.length)).2 ⟨r, hv, rfl⟩
+      rw [h] at this; simp at this
+  · intro h
+    cases hs : Spec.leb128Accept b with
+    | none => rfl
+    | some p =>
+      obtain ⟨n, k⟩ := p
+      obtain ⟨r, hv, _⟩ := (C14_spec_accept_iff b n k).1 hs
+      rw [h] at hv; simp at hv
+
+/-- what `C14_rejects_nonminimal` states, under an accurate name: whatever is accepted, the consumed prefix is the
+canonical string of the returned value -/
+theorem C14_consumed_is_canonical (b : Bytes) (n : Nat) (r : Bytes) (h : varint b = some (n, r)) :
+    b.take (b.length - r.length) = Spec.leb128 n := C14_rejects_nonminimal b n r h
+
+/-- clause (f), direct: a zero byte after one or more continuation bytes (a superfluous most-significant zero group)
+is rejected, whatever the continuation bytes are and whatever follows -/
+theorem C14_rejects_zero_group (p r : Bytes) (hp : p ≠ []) (hc : ∀ x ∈ p, 128 ≤ x.toNat) :
+    varint (p ++ 0 :: r) = none := by
+  unfold varint
+  rw [VarIntSpec.collect_cont _ p [] hc]
+  simp [collect, hp]
+
+/-- the non-minimal spellings of clause (f) literally: the canonical string of `n` with a continuation bit put on
+its last byte, then `j` groups `0x80`, then the zero terminator -/
+theorem C14_rejects_padded (n j : Nat) (r : Bytes) :
+    varint ((Spec.leb128 n).map (fun x => x ||| 128) ++ List.replicate j 128 ++ 0 :: r) = none := by
+  apply C14_rejects_zero_group
+  · have := leb128_ne_nil n
+    cases h : Spec.leb128 n with
+    | nil => exact absurd h this
+    | cons a t => simp
+  · intro x hx
+    simp only [List.mem_append, List.mem_map, List.mem_replicate] at hx
+    rcases hx with ⟨y, _, rfl⟩ | ⟨_, rfl⟩
+    · have : (y ||| 128).toNat = y.toNat ||| 128 := by simp
+      rw [this]; exact Nat.right_le_or
+    · decide
+
+/-- clause (h), direct: a string with no terminator (every byte has the continuation bit; includes the empty
+string) is rejected -/
+theorem C14_rejects_unterminated (b : Bytes) (hc : ∀ x ∈ b, 128 ≤ x.toNat) : varint b = none := by
+  have := VarIntSpec.collect_cont [] b [] hc
+  unfold varint
+  rw [List.append_nil] at this
+  rw [this]; simp [collect]
+
+/-- clause (g), direct: the canonical string of any value of `2^64` or more is rejected, whatever follows -/
+theorem C14_rejects_ge_2_64 (n : Nat) (r : Bytes) (hn : 2^64 ≤ n) : varint (Spec.leb128 n ++ r) = none := by
+  cases h : varint (Spec.leb128 n ++ r) with
+  | none => rfl
+  | some p =>
+    obtain ⟨m, r'⟩ := p
+    obtain ⟨hm, hb⟩ := (C14_dec_iff _ m r').1 h
+    have := (C14_leb128_injective n m r r' hb).1
+    omega
+
+/-- the empty group list is never handed to the accumulation (`res.split_last().unwrap()` cannot fail): `collect`
+returns at least one group -/
+theorem C14_collect_nonempty (b : Bytes) (gs : List Nat) (r : Bytes) (h : collect b [] = some (gs, r)) : gs ≠ [] := by
+  obtain ⟨new, hgs, hne, _⟩ := collect_spec b [] gs r h
+  simp at hgs; subst hgs; exact hne
+
+/-! ## What the decoder reports when it fails (`Monero.varintE`: failure kind and reader position) -/
+
+/-- the model with failure detail is the model of all theorems above once the detail is forgotten -/
+theorem C14_varintE_refines (b : Bytes) : (varintE b).toOption = varint b := VarIntErr.varintE_toOption b
+
+/-- complete description of the decoder on EVERY byte string (rejected ones included — clause "reads no byte beyond
+the terminator" for failures): exactly one of
+* `b = leb128 n ++ r`, `n < 2^64`: accepted with value `n`, rest `r`;
+* `b = leb128 n ++ r`, `n ≥ 2^64`: overflow, reported after reading exactly `leb128 n` (never a byte of `r`);
+* `b = p ++ 0 :: r`, `p` non-empty continuation bytes: zero-rule failure after reading exactly `p` and the zero byte;
+* `b` consists of continuation bytes only (possibly empty): end-of-input failure, everything read. -/
+theorem C14_varintE_cases (b : Bytes) :
+    (∃ n r, n < 2^64 ∧ b = Spec.leb128 n ++ r ∧ varintE b = .ok (n, r)) ∨
+    (∃ n r, 2^64 ≤ n ∧ b = Spec.leb128 n ++ r ∧ varintE b = .error (.overflow, (Spec.leb128 n).length)) ∨
+    (∃ p r, p ≠ [] ∧ (∀ x ∈ p, 128 ≤ x.toNat) ∧ b = p ++ 0 :: r ∧ varintE b = .error (.zero, p.length + 1)) ∨
+    ((∀ x ∈ b, 128 ≤ x.toNat) ∧ varintE b = .error (.eof, b.length)) := by
+  rcases VarIntErr.forms b with ⟨n, r, rfl⟩ | ⟨p, r, hp, hc, rfl⟩ | hc
+  · by_cases hn : n < 2^64
+    · exact Or.inl ⟨n, r, hn, rfl, VarIntErr.varintE_ok n r hn⟩
+    · exact Or.inr (Or.inl ⟨n, r, by omega, rfl, VarIntErr.varintE_overflow n r (by omega)⟩)
+  · exact Or.inr (Or.inr (Or.inl ⟨p, r, hp, hc, rfl, VarIntErr.varintE_zero p r hp hc⟩))
+  · exact Or.inr (Or.inr (Or.inr ⟨hc, VarIntErr.varintE_eof b hc⟩))
+
+/-- end-of-input is reported exactly for strings without terminator, with everything consumed -/
+theorem C14_err_eof_iff (b : Bytes) (k : Nat) :
+    varintE b = .error (.eof, k) ↔ (∀ x ∈ b, 128 ≤ x.toNat) ∧ k = b.length := by
+  constructor
+  · intro h
+    rcases C14_varintE_cases b with ⟨_, _, _, _, e⟩ | ⟨_, _, _, _, e⟩ | ⟨_, _, _, _, _, e⟩ | ⟨hc, e⟩ <;>
+      rw [e] at h <;> simp at h
+    exact ⟨hc, h.symm⟩
+  · rintro ⟨hc, rfl⟩; exact VarIntErr.varintE_eof b hc
+
+/-- the zero rule fires exactly on one or more continuation bytes followed by a zero byte, right after that byte -/
+theorem C14_err_zero_iff (b : Bytes) (k : Nat) :
+    varintE b = .error (.zero, k) ↔
+      ∃ p r, p ≠ [] ∧ (∀ x ∈ p, 128 ≤ x.toNat) ∧ b = p ++ 0 :: r ∧ k = p.length + 1 := by
+  constructor
+  · intro h
+    rcases C14_varintE_cases b with ⟨_, _, _, _, e⟩ | ⟨_, _, _, _, e⟩ | ⟨p, r, hp, hc, hb, e⟩ | ⟨_, e⟩ <;>
+      rw [e] at h <;> simp at h
+    exact ⟨p, r, hp, hc, hb, h.symm⟩
+  · rintro ⟨p, r, hp, hc, rfl, rfl⟩; exact VarIntErr.varintE_zero p r hp hc
+
+/-- overflow is reported exactly on the canonical strings of the values `≥ 2^64`, after reading that string and
+nothing else -/
+theorem C14_err_overflow_iff (b : Bytes) (k : Nat) :
+    varintE b = .error (.overflow, k) ↔
+      ∃ n r, 2^64 ≤ n ∧ b = Spec.leb128 n ++ r ∧ k = (Spec.leb128 n).length := by
+  constructor
+  · intro h
+    rcases C14_varintE_cases b with ⟨_, _, _, _, e⟩ | ⟨n, r, hn, hb, e⟩ | ⟨_, _, _, _, _, e⟩ | ⟨_, e⟩ <;>
+      rw [e] at h <;> simp at h
+    exact ⟨n, r, hn, hb, h.symm⟩
+  · rintro ⟨n, r, hn, rfl, rfl⟩; exact VarIntErr.varintE_overflow n r hn
+
+/-- the reference classification printed by the driver as the oracle of `varint_decx` (truncated / non-minimal / too
+big / ok, with the number of bytes needed) agrees with the model on every input -/
+theorem C14_classify_eq (b : Bytes) : VarIntErr.verdictOf b = Spec.classify b := by
+  unfold VarIntErr.verdictOf
+  rcases C14_varintE_cases b with ⟨n, r, hn, rfl, e⟩ | ⟨n, r, hn, rfl, e⟩ | ⟨p, r, hp, hc, rfl, e⟩ | ⟨hc, e⟩
+  · rw [e, VarIntErr.classify_leb128]; simp [hn]
+  · rw [e, VarIntErr.classify_leb128]
+    have : ¬ n < 2^64 := by omega
+    simp [this]
+  · rw [e, VarIntErr.classify_zero p r hp hc]
+  · rw [e, VarIntErr.classify_cont b hc]
+
+/-- `deserialize::<VarInt>` (whole buffer): accepts exactly the canonical strings of the u64 values, nothing after -/
+theorem C14_exact_iff (b : Bytes) (n : Nat) : varintExact b = some n ↔ n < 2^64 ∧ b = Spec.leb128 n := by
+  unfold varintExact
+  constructor
+  · intro h
+    split at h
+    · rename_i m hv
+      simp at h; subst h
+      have := (C14_dec_iff b m []).1 hv
+      simpa using this
+    · simp at h
+  · rintro ⟨hn, rfl⟩
+    have := (C14_dec_iff (Spec.leb128 n) n []).2 ⟨hn, by simp⟩
+    rw [this]
+
+/-- and its oracle `Spec.acceptExact` is the same function -/
+theorem C14_acceptExact_eq (b : Bytes) : Spec.acceptExact b = varintExact b := by
+  have hcl := C14_classify_eq b
+  unfold Spec.acceptExact
+  rw [← hcl]
+  unfold VarIntErr.verdictOf
+  rcases C14_varintE_cases b with ⟨n, r, hn, rfl, e⟩ | ⟨n, r, hn, hb, e⟩ | ⟨p, r, hp, hc, hb, e⟩ | ⟨hc, e⟩
+  · rw [e]
+    have hv := (C14_dec_iff (Spec.leb128 n ++ r) n r).2 ⟨hn, rfl⟩
+    unfold varintExact
+    rw [hv]
+    cases r with
+    | nil => simp
+    | cons a t => simp
+  all_goals
+    rw [e]
+    have hv : varint b = none := by rw [← C14_varintE_refines, e]; rfl
+    unfold varintExact
+    rw [hv]
+
 /- Non-vacuity: concrete values meet the hypotheses (these are tests, not the theorems). -/
 example : varint [0xac, 0x02, 0x77] = some (300, [0x77]) := by decide
 example : varint [0x98, 0x00] = none := by decide
 example : (encVarintImp 300).1 = [0xac, 0x02] := by
   rw [encVarintImp_eq, encVarint, encVarint]; decide
+
+/- hypotheses of the audit-round theorems are satisfiable; the 10-byte boundary -/
+example : Spec.readGroups [0xac, 0x02, 0x77] = some ([44, 2], 2) ∧ Spec.valOf [44, 2] = 300 := by decide
+example : Spec.readGroups [0xac, 0x82, 0x00] = some ([44, 2, 0], 3) ∧ Spec.valOf [44, 2, 0] = 300 := by decide
+example : ([0x80, 0xff] : Bytes) ≠ [] ∧ ∀ x ∈ ([0x80, 0xff] : Bytes), 128 ≤ x.toNat := by decide
+example : varint (List.replicate 9 0xff ++ [0x01]) = some (2^64 - 1, []) := by decide
+example : varint (List.replicate 9 0xff ++ [0x02]) = none := by decide
+example : varint (List.replicate 9 0x80 ++ [0x02]) = none := by decide
+example : varint (List.replicate 9 0x80 ++ [0x01]) = some (2^63, []) := by decide
+example : varint (List.replicate 10 0x80 ++ [0x01]) = none := by decide
+example : varint (List.replicate 9 0x80 ++ [0x04]) = none := by decide
+example : Spec.leb128Accept [0xac, 0x02, 0x77] = some (300, 2) := by
+  rw [Spec.leb128Accept]; simp [Spec.readGroups, Spec.valOf, Spec.leb128]
+
+example : varintE [0x80, 0x80] = .error (.eof, 2) := by rfl
+example : varintE [0x81, 0x00, 0x55] = .error (.zero, 2) := by rfl
+example : varintE (List.replicate 9 0xff ++ [0x02, 0x55]) = .error (.overflow, 10) := by rfl
+example : varintE [0xac, 0x02, 0x77] = .ok (300, [0x77]) := by rfl
+example : varintExact [0xac, 0x02] = some 300 ∧ varintExact [0xac, 0x02, 0x77] = none := by decide
 
 end C14
